@@ -12,6 +12,10 @@ PROJECTION = "(body entered?, any capture?, outcome kind with the contract id of
 EXHAUSTIVE_STREAM = True
 ASSUMPTIONS = ["user callables answer as a function of the site (A-oracle)",
                "generator functions are not covered (the body runs after the wrapper returned)"]
+NEIGHBOURS = [{"from": "C04", "limit": 400, "why": "inherited precondition groups as built by the real metaclass decide whether the body is entered"},
+              {"from": "C05", "limit": 400, "why": "the arguments the preconditions are decided on are those of the call"},
+              {"from": "C10", "limit": 400, "why": "calls made from a running body are ordinary checked calls"},
+              {"from": "C18", "tags": ["hist"], "limit": 700, "why": "callables below foreign functools.wraps decorators and late class decorations keep their preconditions"}]
 
 
 def cases(tier, rng):
